@@ -412,30 +412,41 @@ def payload_mode_of_arm(b):
 
 
 def data_mode_of_arm(b, has_data_arg):
+    """Which extraction the arm performs, read off what it calls and how it treats absence - not off the names of the
+    local bindings (renaming a macro-internal identifier is not a change of behaviour)."""
     if not has_data_arg:
         return "none"
-    if "let data = match data" not in b:
-        return "raw_opt"
-    opt = "Some (deserialized_data)" in b
-    if "parse_instantiate_response_data" in b:
-        return "inst_opt" if opt else "inst"
-    if "parse_execute_response_data" in b:
-        return "opt" if opt else "typed"
-    return "raw"
+    inst = "parse_instantiate_response_data" in b
+    exe = "parse_execute_response_data" in b
+    absent_is_none = re.search(r"None => None\b", b) is not None          # optional modes map missing data to None
+    if inst:
+        return "inst_opt" if absent_is_none else "inst"
+    if exe:
+        return "opt" if absent_is_none else "typed"
+    # raw modes: the bytes are handed over as they are; the mandatory one rejects absence
+    return "raw" if re.search(r"None => return Err\b|None => Err\b", b) else "raw_opt"
+
+
+HANDLER_CALL = re.compile(
+    r"(?::: new \(\) \. (\w+) \(\((.*?)\) \. into \(\) , (.*)\) $"            # Contract::new().m((ctx..).into(), args)
+    r"|:: new \(\) \. (\w+) \((?:Into :: into|From :: from|\w+ :: from) \(\((.*?)\)\) , (.*)\) $)")
 
 
 def canon_arm(b, which):
-    call = re.search(r":: new \(\) \. (\w+) \(\((.*?)\) \. into \(\) , (.*)\) $", b.strip() + " ")
+    call = HANDLER_CALL.search(b.strip() + " ")
     if not call:
-        if which == "ok" and "add_events (sub_msg_resp . events)" in b and "set_data (sub_msg_resp . data . unwrap ())" in b and "Ok (resp)" in b:
+        # pass-through: no handler is called; a success is answered with the sub-message's events and data, a failure with
+        # that error (how the response / error value is put together is not compared here: the L2 run observes it)
+        if which == "ok" and "add_events" in b and "set_data" in b and re.search(r"\bOk \(", b):
             return "pass"
-        if which == "err" and re.search(r"Err \(sylvia :: cw_std :: StdError :: generic_err \(error\)\) \. map_err \(Into :: into\)", b):
+        if which == "err" and "generic_err" in b and re.search(r"\bErr \(", b):
             return "pass"
         return "unparsed:" + b[:160]
-    fn, ctx, args = call.group(1), nows(call.group(2)), [a.strip() for a in call.group(3).split(",") if a.strip()]
+    g = [x for x in call.groups() if x is not None]
+    fn, ctx, args = g[0], nows(g[1]), [a.strip() for a in g[2].split(",") if a.strip()]
     pm = payload_mode_of_arm(b)
     full_ctx = ctx == "deps,env,gas_used,events,msg_responses"
-    empty_ctx = ctx == "deps,env,gas_used,vec![],vec![]"
+    empty_ctx = ctx in ("deps,env,gas_used,vec![],vec![]", "deps,env,gas_used,Vec::new(),Vec::new()")
     pnames = re.match(r"\w+\((.*)\)", pm).group(1).split(",") if "(" in pm else []
     pnames = [p for p in pnames if p]
     lead = args[:len(args) - len(pnames)]
